@@ -106,14 +106,14 @@ Definition NIn := Network.LIn pkt.
 Definition NProc := Network.LProc pkt.
 
 Definition net_run_strict (N : nat) (ls : list (Network.lab pkt)) : option (Network.net pkt) :=
-  fold_left (fun o l => match o with Some s => Network.step pkt join N s l | None => None end) ls (Some (Network.net0 pkt)).
+  fold_left (fun o l => match o with Some s => Network.step pkt join dropped N s l | None => None end) ls (Some (Network.net0 pkt)).
 
 Fixpoint iter_n {A} (n : nat) (f : A -> A) (x : A) : A := match n with 0 => x | S k => iter_n k f (f x) end.
 
 (* answer whatever can be answered, last node first, until nothing is left to answer *)
 Definition net_settle (N : nat) (st : Network.net pkt) : Network.net pkt :=
   iter_n (Network.n_next pkt st)
-         (fun s => fold_left (Network.step' pkt join N) (map (Network.LAns pkt) (rev (seq 0 N))) s) st.
+         (fun s => fold_left (Network.step' pkt join dropped N) (map (Network.LAns pkt) (rev (seq 0 N))) s) st.
 
 Definition net_ok (c : netcase) : bool :=
   let '(N, ls, got) := c in
